@@ -64,7 +64,6 @@ func H_C04_tokens() {
 	shown := vrtTokensSoFar()
 	vrtNote("template:" + shown)
 	vrtKnown("C04-F1", knownSplitWildcard(shown))
-	vrtKnown("C01-F1", knownAdjacentProjection(strings.ReplaceAll(shown, " ", "")))
 	c04Agree(expr, cerr, ec)
 	vrtReach("compared")
 }
